@@ -316,13 +316,24 @@ def _flush(o, agg):
 
 # covariance matrices far larger than the exhaustive families (size classes where LAPACK drivers block):
 # C = G G^T / m with a deterministic integer factor G (m x rank), full rank and rank deficient
-ABIG = [(40, 40, 5), (40, 25, 5), (70, 70, 10), (70, 41, 10), (130, 130, 8), (130, 97, 8)]
+ABIG = [(40, 40, 5), (40, 25, 5), (70, 70, 10), (70, 41, 10), (130, 130, 8), (130, 97, 8),
+        (620, 620, 2), (700, 530, 3), (1100, 1100, 1)]       # off-axis blocks above 512 / 1024 measurements
 
 
 def _abig_matrix(m, k):
     i, j = numpy.indices((m, k))
     G = ((i * 7 + j * 3 + (i * j) % 11) % 5 - 2.0) + 3.0 * (i == j)
     return G @ G.T / m
+
+
+def _storage_and_reuse(o, fn, C, non, rc, sub=""):
+    """the reconstructor is a function of the VALUES of the matrix: other memory layouts, an integer dtype when the
+    entries are whole numbers, and a call history on one array object (conditioning scans reuse the caller's array)"""
+    from mc import variants
+    f = lambda a: fn(a, non, rc)
+    k = variants.check_storage(o, "independent_of_storage", f, C, 1e-9, sub=sub, kinds=("int64", "int32"))
+    k += variants.check_reuse(o, "matrix", f, C, 1e-12, sub=sub)
+    o.stat("lib_calls", k)
 
 
 def _evaluate_abig(p):
@@ -336,6 +347,7 @@ def _evaluate_abig(p):
     for rc in RCONDS:
         _judge(o, fn, C, non, rc, "rc=%g" % rc, agg, (w, V))
     _flush(o, agg)
+    _storage_and_reuse(o, fn, C, non, 0.1)
     wmax = float(numpy.max(numpy.abs(w)))
     o.stat("nontrivial_rank_deficient_offoff", int((numpy.abs(w) <= ZERO_EIG * wmax).any()))
     o.outcome((p["m"], p["k"], int((numpy.abs(w) > ZERO_EIG * wmax).sum())))
@@ -376,6 +388,9 @@ def evaluate(p):
                 deficient += 1
             for rc in RCONDS:
                 _judge(o, fn, C, non, rc, "i=%d:non=%d:rc=%g" % (idx, non, rc), agg, (w, V))
+            if wmax > 0 and float(numpy.min(numpy.abs(numpy.abs(w) / wmax - 0.5))) > 1e-6:
+                # (not when an eigenvalue sits exactly on the cut: there the classification may legitimately flip)
+                _storage_and_reuse(o, fn, fam[idx].astype(float), non, 0.5, sub="i=%d:non=%d" % (idx, non))
     _flush(o, agg)
     o.stat("nontrivial_rank_deficient_offoff", deficient)
     o.note("min_nonzero_eig_rel", min_gap)
